@@ -296,6 +296,11 @@ func interpret(atom *Sym, val bool) []sfact {
 				}
 				if l.Op == "len" {
 					x := l.Kids[0]
+					if x.Op == "call" && x.Name == "regexp.(Regexp).FindAllString" && len(x.Kids) >= 2 {
+						if (op == "==" && n >= 1) || (op == ">=" && n >= 1) || (op == ">" && n >= 0) {
+							out = append(out, sfact{kind: "matches", subject: x.Kids[0].String() + "|" + x.Kids[1].String()})
+						}
+					}
 					if nm, ok := invokeName(x); ok && nm == "GetChildren" {
 						out = append(out, sfact{kind: "cc", subject: x.Kids[0].String(), op: op, n: n})
 					} else {
@@ -518,6 +523,9 @@ func (an *shapeAn) kinds(t *Sym, fs *factSet, depth int) kindset {
 		}
 	case "elem":
 		coll := binderColls[strings.TrimSuffix(t.Name, "_k")]
+		for coll != nil && coll.Op == "call" && coll.Name == "slice" && len(coll.Kids) == 3 {
+			coll = coll.Kids[0] // a sub-slice has the same element kinds
+		}
 		// a collection chosen by a condition: union over the non-nil alternatives
 		if coll != nil && coll.Op == "ite" {
 			base = kindset{}
@@ -571,6 +579,12 @@ func (an *shapeAn) kinds(t *Sym, fs *factSet, depth int) kindset {
 				}
 			}
 		}
+	case "index":
+		if n, ok := invokeName(t.Kids[0]); ok && strings.HasPrefix(n, "All") {
+			if sym := an.accessorSymbol(n); sym != "" {
+				base = kindset{sym: true}
+			}
+		}
 	case "ite":
 		a, b := an.kinds(t.Kids[1], fs, depth+1), an.kinds(t.Kids[2], fs, depth+1)
 		if a != nil && b != nil {
@@ -608,6 +622,12 @@ func (an *shapeAn) kinds(t *Sym, fs *factSet, depth int) kindset {
 			break
 		}
 		recv := an.kinds(t.Kids[0], fs, depth+1)
+		if recv == nil && t.RK != "" {
+			// receiver not typeable from the term: use its static Go type (non-nil: the call itself was checked)
+			if r, ok := an.ruleOfTypeString(t.RK); ok {
+				recv = kindset{r: true}
+			}
+		}
 		if recv == nil {
 			break
 		}
@@ -1289,6 +1309,18 @@ func (an *shapeAn) lenLower(t *Sym, fs *factSet) int64 {
 					lo = 2
 				}
 			}
+			// the separator is the text matched in the very string that is split: it occurs at least once
+			if sep := t.Kids[1]; sep.Op == "index" && sep.Kids[0].Op == "call" && sep.Kids[0].Name == "regexp.(Regexp).FindStringSubmatch" {
+				if i, ok := symIntC(sep.Kids[1]); ok && i == 0 && sep.Kids[0].Kids[1].String() == t.Kids[0].String() &&
+					fs.has("matches", sep.Kids[0].Kids[0].String()+"|"+sep.Kids[0].Kids[1].String()) && an.regexpMinLen(sep.Kids[0].Kids[0]) >= 1 && lo < 2 {
+					lo = 2
+				}
+			}
+		case t.Name == "regexp.(Regexp).FindString" && lo >= 1:
+			// a non-empty result is a real match: at least the minimal match length of the pattern
+			if m := an.regexpMinLen(t.Kids[0]); int64(m) > lo {
+				lo = int64(m)
+			}
 		case t.Name == "regexp.(Regexp).FindStringSubmatch":
 			if fs.has("matches", t.Kids[0].String()+"|"+t.Kids[1].String()) {
 				if n := an.regexpGroups(t.Kids[0]); n >= 0 && int64(n+1) > lo {
@@ -1351,6 +1383,37 @@ func (an *shapeAn) lenLower(t *Sym, fs *factSet) int64 {
 }
 
 // regexpGroups: number of capture groups of an effectively-final regexp variable (-1 unknown).
+func (an *shapeAn) regexpPattern(re *Sym) (string, bool) {
+	if re.Op != "global" {
+		return "", false
+	}
+	g := an.p.Global(re.Name)
+	if g == nil || getStateAn(an.p).mutable[g] {
+		return "", false
+	}
+	initFn := g.Pkg.Func("init")
+	if initFn == nil {
+		return "", false
+	}
+	for _, b := range initFn.Blocks {
+		for _, in := range b.Instrs {
+			st, ok := in.(*ssa.Store)
+			if !ok || st.Addr != ssa.Value(g) {
+				continue
+			}
+			call, ok := st.Val.(*ssa.Call)
+			if !ok || call.Call.StaticCallee() == nil || fullFuncName(call.Call.StaticCallee()) != "regexp.MustCompile" {
+				continue
+			}
+			sf := newSymFn(an.p, initFn, 2)
+			if s, ok := symStr(sf.val(call.Call.Args[0])); ok {
+				return s, true
+			}
+		}
+	}
+	return "", false
+}
+
 func (an *shapeAn) regexpGroups(re *Sym) int {
 	if re.Op != "global" {
 		return -1
@@ -1385,6 +1448,52 @@ func (an *shapeAn) regexpGroups(re *Sym) int {
 		}
 	}
 	return -1
+}
+
+// regexpMinLen: minimal length of a match of an effectively-final regexp variable (0 if unknown).
+func (an *shapeAn) regexpMinLen(re *Sym) int {
+	pat, ok := an.regexpPattern(re)
+	if !ok {
+		return 0
+	}
+	rx, err := syntax.Parse(pat, syntax.Perl)
+	if err != nil {
+		return 0
+	}
+	var min func(r *syntax.Regexp) int
+	min = func(r *syntax.Regexp) int {
+		switch r.Op {
+		case syntax.OpLiteral:
+			return len(string(r.Rune))
+		case syntax.OpCharClass, syntax.OpAnyChar, syntax.OpAnyCharNotNL:
+			return 1
+		case syntax.OpCapture:
+			return min(r.Sub[0])
+		case syntax.OpConcat:
+			n := 0
+			for _, s := range r.Sub {
+				n += min(s)
+			}
+			return n
+		case syntax.OpAlternate:
+			m := -1
+			for _, s := range r.Sub {
+				if x := min(s); m < 0 || x < m {
+					m = x
+				}
+			}
+			if m < 0 {
+				m = 0
+			}
+			return m
+		case syntax.OpPlus:
+			return min(r.Sub[0])
+		case syntax.OpRepeat:
+			return r.Min * min(r.Sub[0])
+		}
+		return 0
+	}
+	return min(rx)
 }
 
 // offset: t as len(base) - k  or a constant; returns (isLenMinus, k, const, ok)
